@@ -91,8 +91,8 @@ def streams(seed, tier):
     SPECIAL = {
         "float": [0, 0x80000000, 0x7fc00000, 0xffc00000, 0x7f800000, 0xff800000, fbits(1.0), fbits(1.0), 1, 0x80000001],
         "bool": [True, True, False, False], "int": [0, 0, -1, 2147483647, -2147483648, 7, 7],
-        "name": ["a", "a", "A", "", "x" * 300, "\u00e9" * 200], "code": [big, big, L(), L(), Z(1), L(big, big), N("q"), L(*[I("NOOP")] * 101)],
-        "exec": [big, Z(3), Z(3), L(*[Z(0)] * 101), L()], "bvec": [[], [], [True] * 600, [True], [True]],
+        "name": ["a", "a", "A", "", "x" * 300, "\u00e9" * 200], "code": [big, big, L(), L(), Z(1), L(big, big), N("q"), L(*[I("NOOP")] * 101), L(I("INDEX.INCREASE"), I("EXEC.LOOP"), I("NOOP")), N(""), I("CODE.POP")],
+        "exec": [big, Z(3), Z(3), L(*[Z(0)] * 101), L(), L(I("INDEX.INCREASE"), I("EXEC.LOOP"), L(Z(1), I("EXEC.DUP"))), L(I("INDEX.INCREASE"), I("CODE.LOOP"), I("NOOP")), I("EXEC.DUP"), I("CODE.POP")], "bvec": [[], [], [True] * 600, [True], [True]],
         "ivec": [[], [0] * 600, [1, 2], [1, 2]], "fvec": [[0], [0x80000000], [0x7fc00000], [0xffc00000], [fbits(1.0)] * 600],
     }
     sp = []
@@ -108,7 +108,11 @@ def streams(seed, tier):
                 st[field] = [rng.choice(SPECIAL[field]) for _ in range(depth)]
                 st["exec"] = ([I(nm)] + st["exec"]) if T == "EXEC" else [I(nm)]
                 if op in ("YANK", "YANKDUP", "SHOVE"):
-                    st["int"] = [rng.randrange(-1, depth + 1)] + (st["int"] if T != "INTEGER" else [])
+                    base_int = st["int"] if T != "INTEGER" else []
+                    for idx in range(-1, depth + 1):        # every position of this stack
+                        st2 = dict(st); st2["int"] = [idx] + list(base_int)
+                        sp.append(case_run(rng.randrange(2), state(**st2), 0, 1))
+                    continue
                 sp.append(case_run(rng.randrange(2), state(**st), 0, 1))
     out.append(Stream("special-values", "run", "stackops.check", sp,
                       "every stack type x 9 instructions on stacks of 2..5 items drawn from look-alike / extreme values: +-0.0, NaN payloads, infinities, repeated items, "
